@@ -438,8 +438,13 @@ pub fn c16_run(run: u64, seed: u64) -> RunOut {
             }
             if k < n_sends {
                 sent += 1;
-                if btx.send(sent).is_err() {
-                    out.count("send_errors_no_subscriber", 1);
+                if let Err(e) = btx.send(sent) {
+                    // subscriber 0 joined before the first send and every subscriber stays alive for the whole run
+                    out.viol(
+                        "C16:send-failed-with-live-subscribers",
+                        format!("broadcast send of {sent} failed ({}) although {} subscriber(s) are alive (receiver_count {})", e.without_item(), logs.len(), btx.receiver_count()),
+                        replay.clone(),
+                    );
                 }
                 crate::simnet::bump_progress();
                 if let Some(krx) = keeper_rx.as_mut() {
@@ -577,5 +582,74 @@ pub fn c16_run(run: u64, seed: u64) -> RunOut {
     for p in crate::mem::panics_since(&prefix, panics0) {
         out.viol("C16:panic", format!("panic at {}: {}", p.location, p.message), replay.clone());
     }
+    out
+}
+
+
+/// Parallel senders: clones of one broadcast sender used from several OS threads at once. Subscribers whose
+/// buffers can hold everything must receive every value, in per-thread order, without any lag marker, and no
+/// send may fail.
+pub fn c16_parallel(seed: u64, threads: usize, per_thread: u64) -> RunOut {
+    let mut out = RunOut::default();
+    let replay = json!({"seed": seed, "parallel_senders": threads, "values_per_thread": per_thread});
+    let total = threads as u64 * per_thread;
+    let res = crate::clock::run_threads(4, async move {
+        let btx: broadcast::Sender<u64> = broadcast::Sender::new();
+        let mut subs = vec![btx.subscribe::<4>(total as usize + 16), btx.subscribe::<4>(total as usize + 16)];
+        let failed = Arc::new(Mutex::new(0u64));
+        let mut handles = Vec::new();
+        for t in 0..threads as u64 {
+            let tx = btx.clone();
+            let failed = failed.clone();
+            handles.push(tokio::task::spawn_blocking(move || {
+                for i in 0..per_thread {
+                    if tx.send((t << 32) | i).is_err() {
+                        *failed.lock().unwrap() += 1;
+                    }
+                }
+            }));
+        }
+        for h in handles {
+            let _ = h.await;
+        }
+        let mut problems: Vec<String> = Vec::new();
+        let f = *failed.lock().unwrap();
+        if f > 0 {
+            problems.push(format!("{f} sends failed although both subscribers are alive"));
+        }
+        for (si, sub) in subs.iter_mut().enumerate() {
+            let mut next = vec![0u64; threads];
+            let mut n = 0u64;
+            loop {
+                match sub.try_recv() {
+                    Ok(v) => {
+                        let (t, i) = ((v >> 32) as usize, v & 0xffff_ffff);
+                        if i != next[t] {
+                            problems.push(format!("subscriber {si}: value {i} of sender thread {t} arrived where {} was expected (gap or reordering without lag marker)", next[t]));
+                            next[t] = i;
+                        }
+                        next[t] += 1;
+                        n += 1;
+                    }
+                    Err(broadcast::TryRecvError::Lagged) => problems.push(format!("subscriber {si}: Lagged although its buffer holds everything")),
+                    Err(_) => break,
+                }
+                if problems.len() > 5 {
+                    break;
+                }
+            }
+            if n != total && problems.is_empty() {
+                problems.push(format!("subscriber {si}: received {n} of {total} values"));
+            }
+        }
+        problems
+    });
+    for p in res.iter().take(2) {
+        out.viol("C16:parallel-senders:lost-or-unmarked", p.clone(), replay.clone());
+    }
+    out.count("parallel_values_sent", total);
+    let mut h = Fnv::new();
+    h.add_u64(seed ^ 0xabcdef);
+    out.case_hash = Some(h.get());
     out
 }
